@@ -197,3 +197,128 @@ def translate(repo=None):
     text = render(table)
     vlib.write_if_changed(os.path.join(vlib.GEN, "Z3Table.v"), text)
     return table
+
+
+# ----------------------------------------------------------------- Z3Backend.solve
+# The body of Z3Backend.solve is modelled by hand in Backend/Z3.v (bound_terms, top_cast,
+# readback) and Backend/Z3Verdict.v (z3_solve3): it must be exactly the text below, except
+#  * the verdict test (the hole), which is translated into Gen/Z3SolveTable.v: for each of
+#    z3's three answers, does solve() return False before it asks for a model?
+#  * statements that only set options on the solver object (solver.set(...), possibly under
+#    an `if` whose test does not mention solver / self / the model): the theorems hold for
+#    every sound three-valued solver, so options that can only change WHICH answer z3 gives
+#    (time / resource limits, seeds) are no-ops of the model.
+SOLVE_HEAD = "solver = z3.Solver()"
+SOLVE_ASSERT = '''
+for var in self.variables:
+    if isinstance(var, IntVar):
+        var_z3 = self.variables_dict[var.id]
+        solver.add(var.lo <= var_z3, var_z3 <= var.hi)
+solver.add(self.converted_constraints)
+'''
+SOLVE_VERDICT_BODY = "return False"
+SOLVE_READBACK = '''
+model = solver.model()
+for var in self.variables:
+    var_z3 = self.variables_dict[var.id]
+    if isinstance(var, BoolVar):
+        var.sol = z3.is_true(model[var_z3])
+    elif isinstance(var, IntVar):
+        var.sol = model[var_z3].as_long()
+return True
+'''
+KINDS = ("sat", "unsat", "unknown")
+
+
+def _names(node):
+    return {n.id for n in ast.walk(node) if isinstance(n, ast.Name)}
+
+
+_STATEFUL = {"solver", "self", "model", "var", "var_z3"}
+_SOLVER_METHODS = ("add", "check", "model", "push", "pop", "reset", "assert_exprs", "assert_and_track", "append", "insert")
+
+
+def _is_option_stmt(s):
+    """solver.set(...), possibly under an `if` that reads neither the solver nor the backend
+    object: cannot change the asserted terms, only which answer z3 gives."""
+    if isinstance(s, ast.Expr) and isinstance(s.value, ast.Call) and isinstance(s.value.func, ast.Attribute) \
+            and _d(s.value.func.value) == _d(_expr("solver")) and s.value.func.attr == "set":
+        used = set()
+        for a in list(s.value.args) + [k.value for k in s.value.keywords]:
+            used |= _names(a)
+        return not (used & _STATEFUL)
+    if isinstance(s, ast.If) and not s.orelse and s.body and not (_names(s.test) & _STATEFUL):
+        for n in ast.walk(s.test):
+            if isinstance(n, ast.Call) and isinstance(n.func, ast.Attribute) and n.func.attr in _SOLVER_METHODS:
+                return False
+        return all(_is_option_stmt(x) for x in s.body)
+    return False
+
+
+def _z3_kind(e):
+    if isinstance(e, ast.Attribute) and _d(e.value) == _d(_expr("z3")) and e.attr in KINDS:
+        return e.attr
+    raise TranslateError("Z3Backend.solve: verdict test compares with something else than z3.sat/unsat/unknown: " + ast.unparse(e))
+
+
+def verdict_table(test):
+    """the `if <test>: return False` in front of solver.model(): kind -> bool."""
+    if isinstance(test, ast.UnaryOp) and isinstance(test.op, ast.Not):
+        return {k: not v for k, v in verdict_table(test.operand).items()}
+    if isinstance(test, ast.Compare) and len(test.ops) == 1 and _d(test.left) == _d(_expr("solver.check()")):
+        o, c = test.ops[0], test.comparators[0]
+        if isinstance(o, (ast.Eq, ast.NotEq)):
+            k0 = _z3_kind(c)
+            return {k: (k == k0) == isinstance(o, ast.Eq) for k in KINDS}
+        if isinstance(o, (ast.In, ast.NotIn)) and isinstance(c, (ast.Tuple, ast.List, ast.Set)):
+            ks = [_z3_kind(x) for x in c.elts]
+            return {k: (k in ks) == isinstance(o, ast.In) for k in KINDS}
+    raise TranslateError("Z3Backend.solve: unrecognised verdict test: " + ast.unparse(test))
+
+
+def read_solve(path):
+    with open(path) as f:
+        mod = ast.parse(f.read())
+    cls = [n for n in mod.body if isinstance(n, ast.ClassDef) and n.name == "Z3Backend"]
+    if len(cls) != 1:
+        raise TranslateError("class Z3Backend not found exactly once")
+    fn = [n for n in cls[0].body if isinstance(n, ast.FunctionDef) and n.name == "solve"]
+    if len(fn) != 1:
+        raise TranslateError("Z3Backend.solve not found exactly once")
+    fn = fn[0]
+    if [a.arg for a in fn.args.args] != ["self"] or fn.args.vararg or fn.args.kwarg or fn.args.defaults \
+            or fn.args.kwonlyargs or fn.decorator_list:
+        raise TranslateError("Z3Backend.solve signature changed")
+    body = [s for s in fn.body if not (isinstance(s, ast.Expr) and isinstance(s.value, ast.Constant))]
+    if not body or _d(body[0]) != _d(_parse_stmts(SOLVE_HEAD)[0]):
+        raise TranslateError("Z3Backend.solve: does not start with `solver = z3.Solver()`")
+    core = [s for s in body[1:] if not _is_option_stmt(s)]
+    a, r = _parse_stmts(SOLVE_ASSERT), _parse_stmts(SOLVE_READBACK)
+    if len(core) != len(a) + 1 + len(r):
+        raise TranslateError("Z3Backend.solve: body has %d core statements, the modelled text has %d: %s" % (
+            len(core), len(a) + 1 + len(r), "; ".join(ast.unparse(s) for s in core)[:400]))
+    if [_d(s) for s in core[:len(a)]] != [_d(s) for s in a]:
+        raise TranslateError("Z3Backend.solve: the assertion of bounds / constraints changed")
+    if [_d(s) for s in core[len(a) + 1:]] != [_d(s) for s in r]:
+        raise TranslateError("Z3Backend.solve: the model read-back changed")
+    v = core[len(a)]
+    if not (isinstance(v, ast.If) and not v.orelse
+            and [_d(s) for s in v.body] == [_d(s) for s in _parse_stmts(SOLVE_VERDICT_BODY)]):
+        raise TranslateError("Z3Backend.solve: the verdict statement is not `if <test>: return False`: " + ast.unparse(v)[:200])
+    return verdict_table(v.test)
+
+
+def render_solve(tbl):
+    b = lambda x: "true" if x else "false"      # noqa
+    return ("(* GENERATED by harness/c01translate.py from cspuz/backend/z3.py::Z3Backend.solve -- do not edit *)\n"
+            "From Cspuz Require Import Backend.Z3Check.\n"
+            "Definition solve_returns_false_on (c : check_result) : bool :=\n"
+            "  match c with\n  | CSat => %s\n  | CUnsat => %s\n  | CUnknown => %s\n  end.\n"
+            % (b(tbl["sat"]), b(tbl["unsat"]), b(tbl["unknown"])))
+
+
+def translate_solve(repo=None):
+    repo = repo or vlib.REPO
+    tbl = read_solve(os.path.join(repo, "cspuz", "backend", "z3.py"))
+    vlib.write_if_changed(os.path.join(vlib.GEN, "Z3SolveTable.v"), render_solve(tbl))
+    return tbl
